@@ -1,2 +1,127 @@
-(* C04 — theorems are added below as they are proved. *)
-From Anko Require Import Interp.Model.
+(* C04 — names follow lexical block scope; closures capture their defining scope.
+   Statements only; proofs are in Interp/ScopeProofs.v and Interp/ScopeFacts.v.
+   [exec] is the interpreter model of Interp/Model.v; the theorems hold for every
+   program, every store, every oracle and cancellation instant, and every fuel. *)
+From Coq Require Import String List ZArith Bool Arith.
+From Anko Require Import Base.Assoc Env.EnvModel Env.EnvProofs Interp.Ast Interp.Value Interp.ToX Interp.Model
+     Interp.ScopeProofs Interp.ScopeFacts.
+Import ListNotations.
+
+(* "After any statement finishes - normally, by break/continue/return, or by an error that
+   is later caught - execution continues in exactly the scope that was current before it."
+   For statements the only error that can come back with another scope current is the
+   failure of NewModule on a dotted module name, which no parsed tree contains. *)
+Theorem scope_restored_after_statement : forall orc cancel_at fuel (so : option stmt) s,
+  match exec orc cancel_at fuel (CStmt so) s with
+  | Ok s' => r_env s' = r_env s
+  | Err e s' => e = dotted_err \/ r_env s' = r_env s
+  | Abort _ => True
+  end.
+Proof.
+  intros orc cancel_at fuel so s. pose proof (exec_env orc cancel_at fuel (CStmt so) s) as H.
+  cbn [strict_cmd post_env env_eq] in H. destruct (exec orc cancel_at fuel (CStmt so) s); auto.
+  destruct H as [[_ H]|[H _]]; auto.
+Qed.
+
+(* expressions, assignments and calls: the scope is the same afterwards on every path,
+   including calls of script functions (which run in their own invocation record) *)
+Theorem scope_restored_after_expression : forall orc cancel_at fuel e s,
+  match exec orc cancel_at fuel (CExpr e) s with
+  | Ok s' | Err _ s' => r_env s' = r_env s
+  | Abort _ => True
+  end.
+Proof.
+  intros orc cancel_at fuel e s. pose proof (exec_env orc cancel_at fuel (CExpr e) s) as H.
+  cbn [strict_cmd post_env env_eq] in H. destruct (exec orc cancel_at fuel (CExpr e) s); auto.
+  destruct H as [[H _]|[H _]]; [discriminate|auto].
+Qed.
+
+Theorem scope_restored_after_call : forall orc cancel_at fuel f args callslice s,
+  match exec orc cancel_at fuel (CApply f args callslice) s with
+  | Ok s' | Err _ s' => r_env s' = r_env s
+  | Abort _ => True
+  end.
+Proof.
+  intros orc cancel_at fuel f args cs s. pose proof (exec_env orc cancel_at fuel (CApply f args cs) s) as H.
+  cbn [strict_cmd post_env env_eq] in H. destruct (exec orc cancel_at fuel (CApply f args cs) s); auto.
+  destruct H as [[H _]|[H _]]; [discriminate|auto].
+Qed.
+
+(* a name refers to the nearest enclosing binding *)
+Theorem lookup_nearest : forall st e x,
+  wf (st_heap st) -> e < length (st_heap st) ->
+  env_get st e x =
+    match first_answer (st_heap st) (fun sc => own_value (fun _ _ => None) sc x) (chain (hfuel st) (st_heap st) e) with
+    | Some v => EnvModel.Ok v
+    | None => EnvModel.Err ErrUndefSym
+    end.
+Proof. exact env_get_nearest. Qed.
+
+(* plain assignment updates the nearest existing binding and otherwise creates one in the current block *)
+Theorem assign_nearest_else_here : forall rec x s,
+  wf (st_heap (r_st s)) -> r_env s < length (st_heap (r_st s)) ->
+  invoke_let rec (EIdent x) s =
+    match nearest_binding (st_heap (r_st s)) x (chain (hfuel (r_st s)) (st_heap (r_st s)) (r_env s)) with
+    | Some j => Ok (set_st s (set_heap (r_st s)
+                      (upd (st_heap (r_st s)) j (fun sc => set_values sc (aset (sc_values sc) x (r_rv s))))))
+    | None => Ok (set_st s (env_define (r_st s) (r_env s) x (r_rv s)))
+    end.
+Proof.
+  intros rec x s Hwf He. rewrite assign_ident, env_set_nearest by assumption.
+  destruct (nearest_binding _ _ _); reflexivity.
+Qed.
+
+(* var, loop variables, catch variables and parameters bind in the current scope only *)
+Theorem define_binds_current_scope_only : forall names st e rvs j,
+  j <> e -> nth_error (st_heap (define_all st e names rvs)) j = nth_error (st_heap st) j.
+Proof. exact define_all_frame. Qed.
+
+(* every block and every invocation runs in a fresh scope whose parent is the scope it was entered
+   from (blocks) or the scope the function was created in (invocations, see Model.run_vm_func) *)
+Theorem fresh_child_scope : forall st e st' i,
+  env_new st e = (st', i) ->
+  i = length (st_heap st) /\
+  nth_error (st_heap st') i = Some (mkScope (Some e) [] [] None) /\
+  (forall j, j < length (st_heap st) -> nth_error (st_heap st') j = nth_error (st_heap st) j) /\
+  st_arrays st' = st_arrays st /\ st_maps st' = st_maps st /\ st_trace st' = st_trace st.
+Proof. exact env_new_fresh. Qed.
+
+(* bindings made inside a block are not visible after it ends: the block's scope is not on the chain
+   of the scope that is current again *)
+Theorem block_scope_unreachable_afterwards : forall (h : list (@scope rval unit)) env0 fuel sc,
+  wf h -> env0 < length h -> ~ In (length h) (chain fuel (h ++ [sc]) env0).
+Proof. exact child_not_on_chain. Qed.
+
+(* a function value captures the scope in which it was created, by reference *)
+Theorem closure_captures_defining_scope : forall name body params vararg s,
+  exists c st', invoke_func name body params vararg s = Ok (set_rv (set_st s st') (Imm (VFunc c))) /\
+                nth_error (st_closures st') c = Some (mkClosure name params vararg body (r_env s)).
+Proof. exact closure_captures_current_scope. Qed.
+
+Print Assumptions scope_restored_after_statement.
+Print Assumptions scope_restored_after_expression.
+Print Assumptions scope_restored_after_call.
+Print Assumptions lookup_nearest.
+Print Assumptions assign_nearest_else_here.
+Print Assumptions define_binds_current_scope_only.
+Print Assumptions fresh_child_scope.
+Print Assumptions block_scope_unreachable_afterwards.
+Print Assumptions closure_captures_defining_scope.
+
+(* non-vacuity: a concrete program that shadows a name in a block, leaves the block by an error that is
+   caught, and reads the name again; the model runs it and the scope is the top-level one afterwards *)
+Open Scope string_scope.
+Definition ex_prog : stmt :=
+  SStmts [SLets [EIdent "a"] [ELit (LInt 1)];
+          STry (Some (SStmts [SIf (ELit (LBool true))
+                                  (Some (SStmts [SVar ["a"] [ELit (LInt 2)];
+                                                 SExpr (EOp (OMul (ELit (LInt 1)) "%" (ELit (LInt 0))))]))
+                                  [] None])) "e" (Some (SStmts [SExpr (EIdent "a")])) None;
+          SExpr (EIdent "a")].
+
+Example ex_prog_runs :
+  match exec (mkOracle [] []) None 200 (CStmt (Some ex_prog)) (mkR (mkStore [mkScope None [] [] None] [] [] [] [] 0) 0 rv_nil []) with
+  | Ok s' => r_env s' = 0 /\ deref (r_st s') (r_rv s') = VInt 1
+  | _ => False
+  end.
+Proof. vm_compute. split; reflexivity. Qed.
